@@ -53,6 +53,19 @@ Definition key_of_skey (k : skey) : key :=
   | SKTs s n => KTs s n
   end.
 
+(* the C++ object a VisitKeys callback is handed: a REFERENCE to the tuple slot that is current *)
+Definition qkey_of_skey (k : skey) : qkey :=
+  match k with
+  | SKStr s => QStr s | SKU u => QU u | SKS z => QS z | SKF32 b => QF32 b | SKF64 b => QF64 b | SKTs s n => QTs s n
+  end.
+
+(* ReadKey writes the slot of the kind of the key it reads: a request key that is a reference to that slot changes with it *)
+Definition same_slot (k : skey) (q : qkey) : bool :=
+  match k, q with
+  | SKStr _, QStr _ | SKU _, QU _ | SKS _, QS _ | SKF32 _, QF32 _ | SKF64 _, QF64 _ | SKTs _ _, QTs _ _ => true
+  | _, _ => false
+  end.
+
 Definition u64 : ity := mkIty false 64.
 Definition s64 : ity := mkIty true 64.
 
@@ -237,6 +250,46 @@ Section Scopes.
     | None => loop st rest
     end.
 
+  (* FindValueByKey(key) when key is the reference the VisitKeys callback was handed (SerializeMapImpl passes it on):
+     every key read during the search into the slot of that kind is then compared with itself *)
+  Fixpoint find_loop_ref (fuel : nat) (q : qkey) (c : N) (st : oscope) (rest : list N) : out (bool * oscope) :=
+    match fuel with
+    | O => NoFuel
+    | S f =>
+      if c <? o_size st then
+        let st1 := if o_index st =? o_size st then set_index st 0 else st in
+        let rest1 := if o_index st =? o_size st then o_start st else rest in
+        match read_key rest1 with
+        | KOk k rest2 =>
+          let st2 := set_key st1 (Some k) in
+          let q1 := if same_slot k q then qkey_of_skey k else q in
+          if skey_eq k q1 then Go (true, st2) rest2
+          else match skip_at rest2 with
+               | AOk rest3 => find_loop_ref f q1 (c + 1) (set_index st2 (o_index st2 + 1)) rest3
+               | AErr e p => Raise (SE e) (false, st2) (Some p)
+               | AFuel => NoFuel
+               end
+        | KRaise e true => Raise (SE e) (false, st1) (Some rest1)
+        | KRaise e false => Raise (SE e) (false, set_key st1 (Some slot_written)) None
+        | KStale => Stale
+        | KFuel => NoFuel
+        end
+      else Go (false, set_key st None) rest
+    end.
+
+  Definition find_value_by_key_ref (q : qkey) (st : oscope) (rest : list N) : out (bool * oscope) :=
+    let loop st rest := find_loop_ref (S (length (o_start st))) q 0 st rest in
+    match o_key st with
+    | Some k =>
+      if skey_eq k q then Go (true, st) rest
+      else match reset_key st rest with
+           | Go st1 rest1 => loop st1 rest1
+           | Raise e s p => Raise e (false, s) p
+           | NoFuel => NoFuel | Stale => Stale
+           end
+    | None => loop st rest
+    end.
+
   (* ---------- the destructors ---------- *)
   (* try { for (c = mIndex; c < mSize; ++c) { SkipValue(); SkipValue(); ++mIndex; } } catch (...) { SetCloseScopeFailed(); } *)
   Fixpoint close_loop (fuel : nat) (c size : N) (rest : list N) : cres :=
@@ -374,58 +427,87 @@ Section Scopes.
 
   Definition plain {S} (r : list tok * out S) : res S := (fst r, snd r, false).
 
+  (* ---------- the keyed operations of the object scope ---------- *)
+  (* SerializeValue(key, value) *)
+  Definition do_get (fnd : qkey -> oscope -> list N -> out (bool * oscope)) (q : qkey) (t : target) (st : oscope) (rest : list N) : res oscope :=
+    lift_find (fnd q st rest)
+      (fun st1 r1 =>
+         let st2 := on_finish_child st1 in                      (* mCurrentKey.Reset(); ++mIndex; *)
+         match read_target t r1 with
+         | ROk v r2 => ([KVal v], Go st2 r2, false)
+         | RNot r2 => ([KFalse], Go st2 r2, false)
+         | RErr e => ([], raise_typed e st2 r1, false)
+         | RFuel => ([], NoFuel, false)
+         end)
+      (fun st1 r1 => ([KFalse], Go st1 r1, false)).
+
+  (* OpenObjectScope(key): run_body drives the child scope *)
+  Definition do_obj (fnd : qkey -> oscope -> list N -> out (bool * oscope)) (run_body : oscope -> list N -> res oscope) (q : qkey) (st : oscope) (rest : list N) : res oscope :=
+    lift_find (fnd q st rest)
+      (fun st1 r1 =>
+         match read_map_size o r1 with
+         | ROk n r2 => with_child (after_child_obj on_finish_child st1) (run_body (mkO r2 n 0 None) r2)
+         | RNot r2 => ([KNone], Go (on_finish_child st1) r2, false)
+         | RErr e => ([], raise_typed e st1 r1, false)
+         | RFuel => ([], NoFuel, false)
+         end)
+      (fun st1 r1 => ([KNone], Go st1 r1, false)).
+
+  (* OpenArrayScope(key) *)
+  Definition do_arr (fnd : qkey -> oscope -> list N -> out (bool * oscope)) (run_body : ascope -> list N -> res ascope) (q : qkey) (st : oscope) (rest : list N) : res oscope :=
+    lift_find (fnd q st rest)
+      (fun st1 r1 =>
+         match read_array_size o r1 with
+         | ROk n r2 => with_child (after_child_arr on_finish_child st1) (run_body (mkA n 0) r2)
+         | RNot r2 => ([KNone], Go (on_finish_child st1) r2, false)
+         | RErr e => ([], raise_typed e st1 r1, false)
+         | RFuel => ([], NoFuel, false)
+         end)
+      (fun st1 r1 => ([KNone], Go st1 r1, false)).
+
+  (* OpenBinaryScope(key), then n byte loads; the boolean: the optional came back empty *)
+  Definition do_bin_gen (fnd : qkey -> oscope -> list N -> out (bool * oscope)) (n : nat) (q : qkey) (st : oscope) (rest : list N) : res oscope * bool :=
+    match fnd q st rest with
+    | Go (true, st1) r1 =>
+      match read_value_type r1 with
+      | inr e => (([], Raise (SE e) st1 (Some r1), false), false)
+      | inl TBin =>
+        match read_bin_size o r1 with
+        | ROk sz r2 => (with_child (after_child_bin on_finish_child st1) (plain (bin_reads n (mkA sz 0) r2)), false)
+        | RNot r2 => (([KNone], Go (on_finish_child st1) r2, false), true)
+        | RErr e => (([], raise_typed e st1 r1, false), false)
+        | RFuel => (([], NoFuel, false), false)
+        end
+      | inl _ => (([KNone], Go st1 r1, false), true)            (* nothing consumed, mCurrentKey stays *)
+      end
+    | Go (false, st1) r1 => (([KNone], Go st1 r1, false), true)
+    | Raise e (_, st1) p => (([], Raise e st1 p, false), false)
+    | NoFuel => (([], NoFuel, false), false)
+    | Stale => (([], Stale, false), false)
+    end.
+  Definition do_bin (fnd : qkey -> oscope -> list N -> out (bool * oscope)) (n : nat) (q : qkey) (st : oscope) (rest : list N) : res oscope := fst (do_bin_gen fnd n q st rest).
+
+  Definition seq_res {S} (r1 : res S) (k : S -> list N -> res S) : res S :=
+    match r1 with
+    | (t1, Go st1 rest1, f1) => let '(t2, oc, f2) := k st1 rest1 in (t1 ++ t2, oc, f1 || f2)
+    | failed => failed
+    end.
+
   (* ---------- the scopes driven by a program ---------- *)
   Fixpoint run_req (r : req) (st : oscope) (rest : list N) {struct r} : res oscope :=
     match r with
-    | RGet q t =>                                                 (* SerializeValue(key, value) *)
-      lift_find (find_value_by_key q st rest)
-        (fun st1 r1 =>
-           let st2 := on_finish_child st1 in                      (* mCurrentKey.Reset(); ++mIndex; *)
-           match read_target t r1 with
-           | ROk v r2 => ([KVal v], Go st2 r2, false)
-           | RNot r2 => ([KFalse], Go st2 r2, false)
-           | RErr e => ([], raise_typed e st2 r1, false)
-           | RFuel => ([], NoFuel, false)
-           end)
-        (fun st1 r1 => ([KFalse], Go st1 r1, false))
-    | RObj q body =>                                              (* OpenObjectScope(key) *)
-      lift_find (find_value_by_key q st rest)
-        (fun st1 r1 =>
-           match read_map_size o r1 with
-           | ROk n r2 => with_child (after_child_obj on_finish_child st1) (run_reqs body (mkO r2 n 0 None) r2)
-           | RNot r2 => ([KNone], Go (on_finish_child st1) r2, false)
-           | RErr e => ([], raise_typed e st1 r1, false)
-           | RFuel => ([], NoFuel, false)
-           end)
-        (fun st1 r1 => ([KNone], Go st1 r1, false))
-    | RArr q body =>                                              (* OpenArrayScope(key) *)
-      lift_find (find_value_by_key q st rest)
-        (fun st1 r1 =>
-           match read_array_size o r1 with
-           | ROk n r2 => with_child (after_child_arr on_finish_child st1) (run_areqs body (mkA n 0) r2)
-           | RNot r2 => ([KNone], Go (on_finish_child st1) r2, false)
-           | RErr e => ([], raise_typed e st1 r1, false)
-           | RFuel => ([], NoFuel, false)
-           end)
-        (fun st1 r1 => ([KNone], Go st1 r1, false))
-    | RBin q n =>                                                 (* OpenBinaryScope(key) *)
-      lift_find (find_value_by_key q st rest)
-        (fun st1 r1 =>
-           match read_value_type r1 with
-           | inr e => ([], Raise (SE e) st1 (Some r1), false)
-           | inl TBin =>
-             match read_bin_size o r1 with
-             | ROk sz r2 => with_child (after_child_bin on_finish_child st1) (plain (bin_reads n (mkA sz 0) r2))
-             | RNot r2 => ([KNone], Go (on_finish_child st1) r2, false)
-             | RErr e => ([], raise_typed e st1 r1, false)
-             | RFuel => ([], NoFuel, false)
-             end
-           | inl _ => ([KNone], Go st1 r1, false)                 (* nothing consumed, mCurrentKey stays *)
-           end)
-        (fun st1 r1 => ([KNone], Go st1 r1, false))
+    | RGet q t => do_get find_value_by_key q t st rest
+    | RObj q body => do_obj find_value_by_key (run_reqs body) q st rest
+    | RArr q body => do_arr find_value_by_key (run_areqs body) q st rest
+    | RBin q n => do_bin find_value_by_key n q st rest
     | RVisit =>                                                   (* VisitKeys *)
       match reset_key st rest with
       | Go st1 _ => plain (visit_loop (S (length (o_start st1))) (set_index st1 0) (o_start st1) [])
+      | other => ([], other, false)
+      end
+    | REach acts =>                                               (* VisitKeys with a callback that loads *)
+      match reset_key st rest with
+      | Go st1 _ => run_vacts acts (set_index st1 0) (o_start st1)
       | other => ([], other, false)
       end
     end
@@ -490,6 +572,45 @@ Section Scopes.
       | (t1, Go st1 r1, f1) => let '(t2, oc, f2) := run_areqs l' st1 r1 in (t1 ++ t2, oc, f1 || f2)
       | failed => failed
       end
+    end
+  (* what the callback does with the key q it was handed (by reference: find_value_by_key_ref) *)
+  with run_vact (a : vact) (q : qkey) (st : oscope) (rest : list N) {struct a} : res oscope :=
+    match a with
+    | VSkip => ([], Go st rest, false)
+    | VThrow e => ([], Raise e st (Some rest), false)            (* thrown by the caller's code: nothing moved *)
+    | VGet t => do_get find_value_by_key_ref q t st rest
+    | VObj body => do_obj find_value_by_key_ref (run_reqs body) q st rest
+    | VArr body => do_arr find_value_by_key_ref (run_areqs body) q st rest
+    | VBin n => do_bin find_value_by_key_ref n q st rest
+    | VBinArr n body =>                                           (* binary scope first, array scope when it is declined *)
+      match do_bin_gen find_value_by_key_ref n q st rest with
+      | (r, true) => seq_res r (do_arr find_value_by_key_ref (run_areqs body) q)
+      | (r, false) => r
+      end
+    end
+  (* for (mIndex = 0; mIndex < mSize;) { ReadKey(fn); ResetKey(); } with fn = the i-th action *)
+  with run_vacts (acts : vacts) (st : oscope) (rest : list N) {struct acts} : res oscope :=
+    match acts with
+    | VANil =>      (* the remaining keys: the callback does nothing *)
+      match visit_loop (S (length (o_start st))) st rest [] with (_, oc) => ([], oc, false) end
+    | VACons a acts' =>
+      if o_index st <? o_size st then
+        match read_key rest with
+        | KOk k r1 =>
+          match run_vact a (qkey_of_skey k) (set_key st (Some k)) r1 with
+          | (t1, Go st2 r2, f1) =>
+            match reset_key st2 r2 with
+            | Go st3 r3 => let '(t2, oc, f2) := run_vacts acts' st3 r3 in (t1 ++ t2, oc, f1 || f2)
+            | other => (t1, other, f1)
+            end
+          | failed => failed
+          end
+        | KRaise e true => ([], Raise (SE e) st (Some rest), false)
+        | KRaise e false => ([], Raise (SE e) (set_key st (Some slot_written)) None, false)
+        | KStale => ([], Stale, false)
+        | KFuel => ([], NoFuel, false)
+        end
+      else ([], Go st rest, false)
     end.
 
   (* ---------- the root: MsgPackReadRootScope::OpenObjectScope / OpenArrayScope, the program, the
